@@ -147,6 +147,8 @@ pub enum Op {
     Consume { slot: u8, k: u8 },
     /// hand the future in the slot to a task that has no thread of its own: whoever calls its waker polls it, right there
     AwaitInline { slot: u8 },
+    /// One task awaits two futures with one waker (a join): both are polled, a first, every time the task is woken
+    AwaitJoin { a: u8, b: u8 },
     /// the same for the output stream of a pipe; `drop_on_wake`: the first wake-up tears the task down instead (the stream is
     /// dropped from inside the waker, as an executor does with a cancelled task)
     ConsumeInline { slot: u8, drop_on_wake: bool },
@@ -338,6 +340,7 @@ pub fn fmt_op(op: &Op) -> String {
         Op::Pipe { o, s, depth, body, slot, id } => format!("#{} p{}=pipe(o{}, s{}, depth {}){{{}}}", id, slot, o, s, depth, fmt_steps(body)),
         Op::Consume { slot, k } => format!("consume p{} x{}", slot, k),
         Op::AwaitInline { slot } => format!("await-inline f{}", slot),
+        Op::AwaitJoin { a, b } => format!("await join(f{}, f{})", a, b),
         Op::SetDepth { slot, depth } => format!("set-depth p{} {}", slot, depth),
         Op::ConsumeInline { slot, drop_on_wake } => format!("consume-inline p{}{}", slot, if *drop_on_wake { " (dropped by its first wake-up)" } else { "" }),
         Op::DropPipe { slot } => format!("drop p{}", slot),
